@@ -187,6 +187,20 @@ struct Parser<'a> {
     depth: usize,
 }
 
+macro_rules! with_recursion_guard {
+    ($parser:expr, $expr:expr) => {{
+        $parser.depth += 1;
+        if $parser.depth > MAX_RECURSION {
+            return Err(syntax_error(Cow::Borrowed(
+                "template exceeds maximum recursion limits",
+            )));
+        }
+        let rv = $expr;
+        $parser.depth -= 1;
+        rv
+    }};
+}
+
 macro_rules! binop {
     ($func:ident, $next:ident, { $($tok:tt)* }) => {
         fn $func(&mut self) -> Result<ast::Expr<'a>, Error> {
@@ -221,26 +235,12 @@ macro_rules! unaryop {
             Ok(ast::Expr::UnaryOp(Spanned::new(
                 ast::UnaryOp {
                     op,
-                    expr: ok!(self.$func()),
+                    expr: ok!(with_recursion_guard!(self, self.$func())),
                 },
                 self.stream.expand_span(span),
             )))
         }
     };
-}
-
-macro_rules! with_recursion_guard {
-    ($parser:expr, $expr:expr) => {{
-        $parser.depth += 1;
-        if $parser.depth > MAX_RECURSION {
-            return Err(syntax_error(Cow::Borrowed(
-                "template exceeds maximum recursion limits",
-            )));
-        }
-        let rv = $expr;
-        $parser.depth -= 1;
-        rv
-    }};
 }
 
 impl<'a> Parser<'a> {
